@@ -154,6 +154,23 @@ def run(ctx):
                 for bits in Q.seed_vectors(rng, n, 2 if quick else 4):
                     cases.append({"fn": "angle_sequence", "p": [hexf(x) for x in p], "eps": hexf(eps), "suc": hexf(0.995),
                                   "bits": bits, "shape": "tiny-interior", "family": True, "timeout": 300})
+        # members whose capitalised, scaled polynomial F = suc (p + eps/4 (w^n + w^-n)) sits next to a collision of two real roots of 1 - F F~
+        # (found by bisection inside the implementation process): a nearly double root must be paired the same way by every tolerance in the completion
+        gen = run_impl([{"fn": "c03_bifurc", "d": d_, "seed": rng.randrange(2 ** 31), "want": 9, "attempts": 80, "laurent": True, "timeout": 600}
+                        for d_ in ((5, 6, 7, 8) if quick else list(range(3, 13)) * 2)], timeout=1200)
+        for g_ in gen:
+            for fl in (g_.get("ok") or []):
+                F = [float.fromhex(x) for x in fl]
+                n_ = len(F) - 1
+                eps_, suc_ = 1e-3, 0.999
+                p = [x / suc_ for x in F]
+                p[0] -= eps_ / 4
+                p[-1] -= eps_ / 4
+                if not in_family(p, eps_, suc_) or extreme_margin(p, eps_) < 2e-3:
+                    continue
+                for bits in Q.seed_vectors(rng, n_, 2):
+                    cases.append({"fn": "angle_sequence", "p": [hexf(x) for x in p], "eps": hexf(eps_), "suc": hexf(suc_),
+                                  "bits": bits, "shape": "near-collision", "family": True, "timeout": 300})
         # outside the totality family: larger n, large norms, odd settings
         for j in range(30 if quick else 300):
             n = rng.choice([13, 16, 20, 25, 30, rng.randint(1, 12)])
